@@ -8,33 +8,33 @@ import (
 
 // Profile steers the generator (swarm style: every knob is drawn per run).
 type Profile struct {
-	Names        []string
-	MinTasks     int
-	MaxTasks     int
-	MinOps       int
-	MaxOps       int
-	W            map[string]int // op-kind weights
-	InitMax      int            // initial stack: 0..InitMax transactions in setup
-	Logs         bool
-	BadTxn       float64 // probability of a transaction generated to be rejected
-	SharedOids   int     // >0: refs point at one of this many shared object ids
+	Names          []string
+	MinTasks       int
+	MaxTasks       int
+	MinOps         int
+	MaxOps         int
+	W              map[string]int // op-kind weights
+	InitMax        int            // initial stack: 0..InitMax transactions in setup
+	Logs           bool
+	BadTxn         float64 // probability of a transaction generated to be rejected
+	SharedOids     int     // >0: refs point at one of this many shared object ids
 	ForceNameCheck bool
 	SkipNameCheckP float64
-	AutoP        float64 // probability that a handle has auto-compaction on
-	ReadEvery    bool
+	AutoP          float64 // probability that a handle has auto-compaction on
+	ReadEvery      bool
 	HandlesPerTask int
-	RefsPerTxn   [2]int
-	LogsPerTxn   [2]int
-	SmallBlocks  bool
-	ManyNames    int // >0: extend the alphabet to this many names in some runs
-	HugeNames    int // >0: in some of those runs, this many names
-	ExpiryTimes  bool
-	MultiSpan    bool
-	RoleW        []map[string]int // per-task op weights (task i uses RoleW[i%len])
-	ForceLocalP  bool             // every descriptor-local call is a decision point
-	PopularP     float64          // probability of a transaction that points many refs at one object id
-	FwdLogP      float64          // probability that a new log entry is forward-dated (update index above its table's limits)
-	PrefixNamesP float64          // probability that a run uses the prefix-rich alphabet (name-check refusals)
+	RefsPerTxn     [2]int
+	LogsPerTxn     [2]int
+	SmallBlocks    bool
+	ManyNames      int // >0: extend the alphabet to this many names in some runs
+	HugeNames      int // >0: in some of those runs, this many names
+	ExpiryTimes    bool
+	MultiSpan      bool
+	RoleW          []map[string]int // per-task op weights (task i uses RoleW[i%len])
+	ForceLocalP    bool             // every descriptor-local call is a decision point
+	PopularP       float64          // probability of a transaction that points many refs at one object id
+	FwdLogP        float64          // probability that a new log entry is forward-dated (update index above its table's limits)
+	PrefixNamesP   float64          // probability that a run uses the prefix-rich alphabet (name-check refusals)
 }
 
 var defaultNames = []string{"HEAD", "refs/heads/a", "refs/heads/b", "refs/heads/c", "refs/tags/t", "refs/tags/u", "refs/x/y", "refs/x/z"}
